@@ -4,11 +4,45 @@ Model: lean/Ladybug/Model/AP.lean (on Model/Cal.lean); theorems: lean/Ladybug/Pr
 driver: drv_c04.  Tie: translator (Gen/ApTables from analysisperiod.py) + correspondence on the
 ops below.  The oracle is an independent brute-force enumeration (plain integer minutes of the
 year + stdlib datetime) written from the property statement.
+
+Round 3 (histories, failure paths, process order).  `AnalysisPeriod` has no public setter: its
+state is the constructor's result plus two lazily filled private slots (`_timestamps_data`,
+`_datetimes`); there is no class-level or module-level mutable state.  The model has the explicit
+object state machine `AP.Obj / AP.Op / Obj.step / World.step` (Model/APObj.lean, driver op `hist`):
+* correspondence `hist`: generated operation histories on one object and on several objects of one
+  process (reads in random order and repeated, every attribute assignment, refused calls
+  `is_time_included(None)` / `is_possible_hour('x')`, refused constructor calls, in-place edits of
+  returned lists/dicts, further periods of the other year kind / other timestep created and read in
+  between, copies through duplicate / text / dict / from_start_end_datetime, equality), compared
+  step by step with `World.outs`;
+* oracle `history`: the same histories against the brute-force enumeration of the public state the
+  user established (a refused operation establishes nothing; an accepted assignment establishes
+  what the object then reports); failures are shrunk to the ops that matter;
+* oracle `order`: a slice of all oracle ops is evaluated in 3 (thorough: 4) fresh interpreters in
+  different orders (rare classes first: failing calls, leap, wrapping, sub-hourly, overnight,
+  histories; the reverse; shuffled); an order-dependent failure is replayed as {"order": [...]}.
+
+Producers and their consumers (each consumer is exercised by `hist`/`history`, by the fresh-object
+ops, or by both):
+* `_calc_timestamps` + `_calculate_timestamps` (enumeration, trailing 23:xx steps, year-wrap split)
+  -> datetimes, moys, hoys, hoys_int, is_time_included, slow `__len__`
+* `is_possible_hour` -> enumeration loop, trailing block, months_per_hour, public call (`possible`)
+* `_st_time/_end_time` (constructor, end-day clipping) -> st_*/end_* fields, is_annual, is_reversed,
+  is_overnight, `__repr__`/`__str__`/`ToString`, to_dict, `__eq__`/`__ne__`/`__hash__`, duplicate,
+  doys_int, months_int, fast `__len__`, from_start_end_datetime
+* `_is_reversed` -> moys split, doys_int, months_int, fast `__len__`
+* `_num_of_days_each_month` -> end-day clipping, `_calc_daystamps` (doys_int)
+* `VALIDTIMESTEPS`/`minute_intervals` -> constructor rejection, loop step, `fields`
+* constructor -> from_dict, from_string, from_start_end_datetime, duplicate/`__copy__` (accept AND
+  reject side of each: ops `forms`, `reject`, history ops `via_*`, `new`)
 """
 import calendar
 import contextlib
 import io
 import json
+import os
+import subprocess
+import sys
 from datetime import datetime, timedelta
 
 from harness import core
@@ -18,13 +52,21 @@ PROP = 'C04'
 PROOF_MODULES = ['Ladybug.Props.C04']
 GREP_MODULES = ['Ladybug.Py', 'Ladybug.Model.Cal', 'Ladybug.Gen.DtTables', 'Ladybug.Proofs.CalLemmas',
                 'Ladybug.Model.AP', 'Ladybug.Gen.ApTables', 'Ladybug.Proofs.C04Lemmas',
-                'Ladybug.Proofs.C04Listings', 'Ladybug.Proofs.C04Order', 'Ladybug.Drv.C04', 'Ladybug.DrvCore', 'Ladybug.Props.C08']
+                'Ladybug.Proofs.C04Listings', 'Ladybug.Proofs.C04Order', 'Ladybug.Model.APObj', 'Ladybug.Proofs.C04Obj',
+                'Ladybug.Drv.C04', 'Ladybug.DrvCore', 'Ladybug.Props.C08']
 RULE = ('periods are drawn from the product of boundary sets: dates {1 Jan, 28/29 Feb, 1 Mar, 30/31 of a month, '
         '30/31 Dec, random}, hours {0,1,11,12,22,23,random}^2 (overnight included), all 12 timesteps, both leap '
         'flags, shapes {one day, few days, months, annual, reversed short (Dec->Jan), reversed long, same-day '
         'reversed}; about 10 % malformed (bad month/day/hour/timestep, None/0 arguments, clipped end days). '
         'The total number of enumerated steps per run is capped (correspondence: quick 1.2e6, thorough 1e7; oracle: 9e5 / 6e6; the thorough oracle adds a 1-in-6 lattice of all (st_hour, end_hour, timestep) triples on 5 short date pairs x 2 leap flags). A case is '
-        'non-trivial when the constructor accepts it; distinct = distinct (op, 8 constructor arguments).')
+        'non-trivial when the constructor accepts it; distinct = distinct (op, 8 constructor arguments). '
+        'Hour windows have their own strata: whole day, overnight covering every hour (st_hour = end_hour + 1), '
+        'one-hour window, overnight holding 23 and 0.  Histories: a small period (<= 2500 steps; wrapping, leap, '
+        'sub-hourly and overnight shapes as above, 8 % through None/0 defaults), 40 % with a rare first operation '
+        '(membership test, len, refused call, in-place edit, listing), then 5-12 random world ops (52 % reads, 14 % '
+        'refused, 10 % edits of returned values, 12 % further periods valid/invalid - 70 % of the valid ones differ '
+        'from an existing object only in leap flag / timestep / swapped hours or dates -, 8 % copies, 4 % equality) '
+        'and a final sweep over every observable of every object in random order; distinct = distinct op list.')
 TRUSTED_BASE = [
     'translator tools/extract/ap_tables.py: copies VALIDTIMESTEPS, NUMOFDAYSEACHMONTH(LEAP), MONTHNAMES',
     'modelled, not verified: CPython datetime += timedelta arithmetic inside one year is minute-of-year '
@@ -32,6 +74,10 @@ TRUSTED_BASE = [
     'comparisons in is_possible_hour are exact on the minute grid',
     'character-level __repr__/from_string (replace chain, split) is tied by correspondence only; theorem '
     'C04_repr_roundtrip_partial is at token level',
+    'histories: the model object has exactly the two private slots of the class and no class/module state; a '
+    'change that adds hidden state shows as a `hist` disagreement or `history`/`order` failure on generated '
+    'histories only (sampled, not proved of the code); the fresh-interpreter runs cover a slice of the oracle '
+    'stream, not the correspondence',
     'the model describes the code with fixes/C04_trailing_steps_window.patch and '
     'fixes/C04_months_per_hour_window.patch applied',
 ]
@@ -47,7 +93,11 @@ LEVEL_TEXT = ('Machine-checked Lean 4 theorems over an executable model of analy
               'periods) for every well-formed period, all 12 timesteps, both leap flags; the enumeration is '
               'strictly chronological from the start moment without repeats; len() (fast and slow path) equals '
               'its length (never 0); is_time_included agrees with it; doys_int and months_int are its days/months in list order (adjacent-dedup, wrapping periods included); months_per_hour is complete and sound, and its exact image when every listed month contains a whole day; constructor '
-              'rejection and the dict / token-level text round trips. The class constants are regenerated from '
+              'rejection and the dict / token-level text round trips. An explicit object state machine (the two lazily '
+              'filled slots, every public operation, refused assignments and calls, several objects in one process) '
+              'is proved to refine the pure specification: after ANY history every answer is the fresh object\'s, a '
+              'refused operation changes no observation, reads commute, objects do not influence each other. '
+              'The class constants are regenerated from '
               'the source on every run and the model is compared with the real class on boundary-biased inputs.')
 LEVEL_NOTE = ('Trusted: Lean kernel; axioms propext/Classical.choice/Quot.sound only; the constants extractor; the '
               'correspondence run (agreement on generated inputs only); CPython datetime/timedelta arithmetic; '
@@ -148,8 +198,16 @@ def _date_from_doy(leap, k):
 
 def _rand_hours(rng):
     r = rng.random()
-    if r < 0.25:
+    if r < 0.2:
         return 0, 23
+    if r < 0.28:                       # overnight window that covers every hour (st_hour == end_hour + 1)
+        eh = rng.choice([0, 0, 5, 11, 22, rng.randrange(23)])
+        return eh + 1, eh
+    if r < 0.33:                       # one-hour window
+        h = rng.choice([0, 12, 23, rng.randrange(24)])
+        return h, h
+    if r < 0.38:                       # overnight window holding both 23 and 0
+        return rng.choice([20, 22, 23, 13]), rng.choice([0, 1, 5, 12])
     if r < 0.7:
         return rng.choice(BOUNDARY_HOURS), rng.choice(BOUNDARY_HOURS)
     return rng.randrange(24), rng.randrange(24)
@@ -286,7 +344,15 @@ FIXED = [
     (1, 1, 0, 13, 1, 23, 1, False), (1, 1, 0, -1, 5, 23, 1, False), (1, 1, 0, -12, 5, 23, 1, False),
     (2, 30, 0, 12, 31, 23, 1, True), (1, 1, 24, 12, 31, 23, 1, False), (1, 1, 0, 12, 31, 23, 7, False),
     (1, 1, 0, 12, 31, 23, -1, False), (1, 1, 0, 12, 31, 24, 1, False), (1, 1, 0, 4, -1, 23, 1, False),
-]
+    # round 3: rare classes as fixed members
+    (12, 30, 20, 1, 2, 5, 6, False), (11, 1, 0, 2, 29, 23, 12, True),       # wrapping + sub-hourly + 23 and 0
+    (3, 1, 12, 3, 10, 11, 4, False), (1, 1, 1, 1, 2, 0, 2, False), (12, 20, 6, 1, 10, 5, 12, True),  # every hour, overnight
+    (3, 1, 7, 3, 3, 7, 15, False), (12, 31, 23, 1, 1, 23, 30, False),       # one-hour windows
+    (2, 29, 0, 3, 5, 23, 1, False), (4, 31, 8, 5, 2, 18, 4, False), (6, -3, 0, 6, 30, 23, 1, False),  # start dates not in the calendar
+    (6, 31, None, 7, 2, None, None, False), (2, 29, 0, 2, 29, 23, 1, False), (2, 28, 0, 2, 29, 23, 1, False),
+    (2, 28, 0, 2, 30, 23, 2, True), (2, 28, 0, 2, 30, 23, 2, False),        # end day clipped to 29 / 28
+] + [tuple(v if i == k else d for i, d in enumerate((3, 5, 6, 3, 7, 18, 2))) + (leap,)     # one falsy argument at a time
+     for k in range(7) for v in (0, None) for leap in (False, True)]
 
 
 def _periods(ctx, n, cap, rng=None, malformed=0.1):
@@ -348,6 +414,28 @@ def _count_dist(ctx, cases):
         try:
             sh, eh = c[2] or 0, (23 if c[5] is None else c[5])
             ctx.count('window:' + ('whole-day' if (sh, eh) == (0, 23) else 'overnight' if sh > eh else 'partial'))
+            if sh == eh + 1:
+                ctx.count('window:overnight-every-hour')
+            if sh == eh:
+                ctx.count('window:one-hour')
+            if sh > eh and eh >= 0:
+                ctx.count('window:overnight-with-23-and-0')
+            n = _normalise(c)
+            if n is not None:
+                if (n[0], n[1], n[2]) > (n[3], n[4], n[5]):
+                    ctx.count('class:wrapping')
+                    if n[6] > 1:
+                        ctx.count('class:wrapping-sub-hourly')
+                if any(x is None for x in c[:7]):
+                    ctx.count('class:none-argument')
+                if any(x == 0 and x is not None for x in (c[0], c[1], c[3], c[4], c[6])):
+                    ctx.count('class:zero-for-defaulted-argument')
+                if c[5] == 0:
+                    ctx.count('class:end-hour-0')
+                if (n[0], n[1]) == (2, 29) or (n[3], n[4]) == (2, 29):
+                    ctx.count('class:29-feb')
+                if c[4] is not None and c[4] != n[4] and c[4] != 0:
+                    ctx.count('class:end-day-clipped')
         except TypeError:
             pass
 
@@ -399,6 +487,52 @@ def correspondence(ctx):
 
     for part in _chunks(cs, 1.5e6):
         _correspond_part(ctx, part, key)
+    _correspond_histories(ctx)
+    _correspond_entry_points(ctx, cs)
+
+
+def _correspond_histories(ctx):
+    """Operation histories on one object / several objects of one process, step by step against the
+    object state machine of the model (`AP.World.outs`)."""
+    rng = ctx.rng
+    n = ctx.n(400, 2500) * (3 if ctx.searching and ctx.quick else 1)
+    hs = [(h, 'fixed') for h in FIXED_HISTORIES] + [_gen_history(ctx, rng) for _ in range(n)]
+    for h, shape in hs:
+        ctx.count('history_shape:' + shape)
+        ctx.count('history_ops', len(h['ops']))
+        ctx.count('history_leap:%s' % _b(h['args'][7]))
+        for op in h['ops']:
+            ctx.count('history_op:' + (op[2] if op[0] == 'on' else op[0]))
+        first = h['ops'][0]
+        ctx.count('history_first:' + (first[2] if first[0] == 'on' else first[0]))
+    compare_batch(ctx, 'hist', [h for h, _ in hs], _hist_line, _run_history_impl, canon=_canon,
+                  key=lambda h: json.dumps(h, sort_keys=True, default=str))
+
+
+def _correspond_entry_points(ctx, cs):
+    """`from_start_end_datetime` (the remaining public entry point) against the model's constructor."""
+    from ladybug.analysisperiod import AnalysisPeriod
+    from ladybug.dt import DateTime
+    def dates_ok(c):        # both DateTimes exist (stdlib calendar): the entry point takes DateTime arguments
+        try:
+            return all(isinstance(x, int) and not isinstance(x, bool) for x in c[:7]) and c[6] > 0 and \
+                1 <= c[0] <= 12 and 1 <= c[3] <= 12 and 1 <= c[1] <= _mlen(bool(c[7]), c[0]) and 1 <= c[4] and \
+                0 <= c[2] <= 23 and 0 <= c[5] <= 23
+        except Exception:
+            return False
+    plain = [c for c in cs if dates_ok(c)]
+
+    def impl(c):
+        leap = bool(c[7])
+        try:
+            st = DateTime(c[0], c[1], c[2], 0, leap)
+            en = DateTime(c[3], min(c[4], _mlen(leap, c[3]) if 1 <= c[3] <= 12 else c[4]), c[5], 0, leap)
+        except Exception as e:
+            return 'err:' + err_name(e)
+        return _show_ap(_quiet_call(AnalysisPeriod.from_start_end_datetime, st, en, c[6]))
+
+    compare_batch(ctx, 'from_start_end', plain[:ctx.n(500, 3000)], lambda c: _line('mk', c), impl, canon=_canon,
+                  key=lambda c: tuple(c))
 
 
 def _correspond_part(ctx, cs, key):
@@ -580,7 +714,7 @@ def _normalise(args):
     return sm, sd, sh, em, ed, eh, ts, leap
 
 
-def check_case(op, inp):
+def _check_basic(op, inp):
     from ladybug.analysisperiod import AnalysisPeriod
     from ladybug.dt import DateTime
     args = tuple(inp['args'])
@@ -704,7 +838,860 @@ def check_case(op, inp):
     raise ValueError('unknown op ' + op)
 
 
+
+# ---------------------------------------------------------------------------------------------
+# round 3: operation histories on one object / several objects in one process
+#
+# A history is {"args": [8 constructor arguments of object 0], "ops": [world op, ...]}; world ops:
+#   ["on", i, read]                       read in HIST_READS
+#   ["on", i, "included", moy] / ["on", i, "possible", minute_of_day]
+#   ["on", i, "set_attr", name, value]    refused: AttributeError (read-only property / __slots__)
+#   ["on", i, "included_bad", kind]       refused: is_time_included(None | 5)
+#   ["on", i, "possible_bad", kind]       refused: is_possible_hour('x' | None)
+#   ["on", i, "mutate_result", read]      the caller edits the returned list / dict in place
+#   ["new", a, b, c, d, e, f, g, leap]    AnalysisPeriod(...) (accepted -> appended, else refused)
+#   ["dup", i] ["via_string", i] ["via_dict", i] ["via_start_end", i]     copies, appended
+#   ["eq", i, j]
+# The model side is `AP.World.outs` (Model/APObj.lean, driver op `hist`); the oracle side recomputes
+# every answer by brute force from the public state the user established (the constructor arguments).
+
+HIST_READS = ['moys', 'hoys', 'hoys_int', 'datetimes', 'len', 'doys', 'months', 'mph', 'repr', 'to_dict',
+              'fields', 'duplicate']
+SET_ATTRS = ['st_month', 'st_day', 'st_hour', 'end_month', 'end_day', 'end_hour', 'timestep', 'is_leap_year',
+             'st_time', 'end_time', 'moys', 'datetimes', 'hoys', 'is_reversed', 'is_overnight', 'minute_intervals',
+             'is_annual', 'doys_int', 'months_int', 'cache', 'leap_year']
+MUTABLE_READS = ['moys', 'hoys', 'hoys_int', 'datetimes', 'doys_int', 'months_int', 'months_per_hour', 'to_dict']
+
+
+def _fields(ap):
+    return (ap.st_month, ap.st_day, ap.st_hour, ap.end_month, ap.end_day, ap.end_hour, ap.timestep,
+            bool(ap.is_leap_year), bool(ap.is_reversed), bool(ap.is_overnight), bool(ap.is_annual),
+            ap.st_time.moy, ap.end_time.moy, _minutes(ap.minute_intervals))
+
+
+def _made(f, *a):
+    try:
+        with _quiet():
+            ap = f(*a)
+    except Exception as e:
+        return ('err', err_name(e)), None
+    try:
+        return ('ok', 'made', _fields(ap)), ap
+    except Exception as e:
+        return ('err', 'fields:' + err_name(e)), None
+
+
+def _exec_step(objs, op):
+    """One world op on the real code -> ('ok', kind, value) | ('err', class).  Never raises."""
+    from ladybug.analysisperiod import AnalysisPeriod
+    from ladybug.dt import DateTime
+    try:
+        kind = op[0]
+        if kind == 'on':
+            ap = objs[op[1]]
+            name = op[2]
+            if name == 'moys':
+                return ('ok', 'nats', list(ap.moys))
+            if name == 'hoys':
+                return ('ok', 'floats', list(ap.hoys))
+            if name == 'hoys_int':
+                return ('ok', 'nats', list(ap.hoys_int))
+            if name == 'datetimes':
+                return ('ok', 'dts', [(d.month, d.day, d.hour, d.minute, bool(d.leap_year), d.moy)
+                                      for d in ap.datetimes])
+            if name == 'len':
+                return ('ok', 'nat', len(ap))
+            if name == 'doys':
+                return ('ok', 'nats', list(ap.doys_int))
+            if name == 'months':
+                return ('ok', 'nats', list(ap.months_int))
+            if name == 'mph':
+                return ('ok', 'triples', [tuple(t) for t in ap.months_per_hour])
+            if name == 'included':
+                return ('ok', 'bool', bool(ap.is_time_included(DateTime.from_moy(op[3], ap.is_leap_year))))
+            if name == 'possible':
+                return ('ok', 'bool', bool(ap.is_possible_hour(op[3] / 60.0)))
+            if name == 'repr':
+                r = repr(ap)
+                if str(ap) != r or ap.ToString() != r:
+                    return ('ok', 'str', '%s <> str %s' % (r, str(ap)))
+                return ('ok', 'str', r)
+            if name == 'to_dict':
+                return ('ok', 'dict', dict(ap.to_dict()))
+            if name == 'fields':
+                return ('ok', 'fields', _fields(ap))
+            if name == 'duplicate':
+                return _made(ap.duplicate)[0]
+            if name == 'set_attr':
+                setattr(ap, op[3], op[4])
+                return ('ok', 'set', op[3])
+            if name == 'included_bad':
+                ap.is_time_included(None if op[3] == 'none' else 5)
+                return ('ok', 'unit', None)
+            if name == 'possible_bad':
+                ap.is_possible_hour('x' if op[3] == 'str' else None)
+                return ('ok', 'unit', None)
+            if name == 'mutate_result':
+                what = op[3]
+                v = ap.to_dict() if what == 'to_dict' else getattr(ap, what)
+                if isinstance(v, list):
+                    v.reverse()
+                    v.append(-7)
+                    del v[0]
+                elif isinstance(v, dict):
+                    v['st_month'] = 99
+                    v.pop('timestep', None)
+                return ('ok', 'unit', None)
+            return ('err', 'harness-unknown-read')
+        if kind == 'new':
+            res, ap = _made(AnalysisPeriod, *op[1:9])
+        elif kind == 'dup':
+            res, ap = _made(objs[op[1]].duplicate)
+        elif kind == 'via_string':
+            res, ap = _made(AnalysisPeriod.from_string, repr(objs[op[1]]))
+        elif kind == 'via_dict':
+            res, ap = _made(AnalysisPeriod.from_dict, json.loads(json.dumps(objs[op[1]].to_dict())))
+        elif kind == 'via_start_end':
+            o = objs[op[1]]
+            res, ap = _made(AnalysisPeriod.from_start_end_datetime, o.st_time, o.end_time, o.timestep)
+        elif kind == 'eq':
+            a, b = objs[op[1]], objs[op[2]]
+            e = (a == b)
+            if (a != b) == e or (e and hash(a) != hash(b)):
+                return ('ok', 'str', 'inconsistent')
+            return ('ok', 'bool', bool(e))
+        else:
+            return ('err', 'harness-unknown-op')
+        if ap is not None:
+            objs.append(ap)
+        return res
+    except Exception as e:
+        return ('err', err_name(e))
+
+
+def _fmt_step(res):
+    """Result of `_exec_step` in the model driver's output format."""
+    if res[0] == 'err':
+        return 'err:' + res[1]
+    kind, v = res[1], res[2]
+    if kind == 'nats':
+        return _show_list(v).rstrip()
+    if kind == 'floats':
+        ms = [int(round(h * 60)) for h in v]
+        if any(m / 60.0 != h for m, h in zip(ms, v)):
+            return 'ok hoys-not-moy/60.0'
+        return _show_list(ms).rstrip()
+    if kind == 'dts':
+        return ('ok ' + ' '.join('%d-%d-%d-%d-%s' % (d[0], d[1], d[2], d[3], _b(d[4])) for d in v)).rstrip()
+    if kind == 'nat':
+        return 'ok %d' % v
+    if kind == 'bool':
+        return 'ok ' + _b(v)
+    if kind == 'triples':
+        return ('ok ' + ' '.join('%d-%d-%d' % t for t in v)).rstrip()
+    if kind == 'str':
+        return 'ok ' + v
+    if kind == 'dict':
+        return _show_dict(v)
+    if kind in ('fields', 'made'):
+        return 'ok %d %d %d %d %d %d %d %s %s %s %s %d %d %d' % tuple(
+            _b(x) if isinstance(x, bool) else x for x in v)
+    if kind == 'set':
+        return 'ok set'
+    return 'ok'
+
+
+def _hist_line(h):
+    parts = ['hist ' + ' '.join(_tok(x) for x in h['args'][:7]) + ' ' + _b(h['args'][7])]
+    for op in h['ops']:
+        if op[0] == 'on':
+            name = op[2]
+            if name in ('included', 'possible'):
+                parts.append('on %d %s %d' % (op[1], name, op[3]))
+            else:
+                parts.append('on %d %s' % (op[1], name))
+        elif op[0] == 'new':
+            parts.append('new ' + ' '.join(_tok(x) for x in op[1:8]) + ' ' + _b(op[8]))
+        elif op[0] == 'eq':
+            parts.append('eq %d %d' % (op[1], op[2]))
+        else:
+            parts.append('%s %d' % (op[0], op[1]))
+    return ' ; '.join(parts)
+
+
+def _run_history_impl(h):
+    """Execute a history on the real code; formatted outputs joined like the driver's answer."""
+    res0, ap = _made(_ap_class(), *h['args'])
+    if ap is None:
+        return _fmt_step(res0)
+    objs = [ap]
+    return ' | '.join(_fmt_step(_exec_step(objs, op)) for op in h['ops'])
+
+
+def _ap_class():
+    from ladybug.analysisperiod import AnalysisPeriod
+    return AnalysisPeriod
+
+
+# -- generator ------------------------------------------------------------------------------------
+
+def _small_valid(ctx, rng, max_steps=2500):
+    for _ in range(200):
+        c, shape = _gen_valid(ctx, rng)
+        if shape in ('annual', 'rev-long', 'months', 'same-day'):
+            continue
+        if 0 < _steps_estimate(c) <= max_steps:
+            return c, shape
+    return (12, 30, 22, 1, 2, 5, 2, False), 'fallback'
+
+
+def _probe_moys(rng, c):
+    leap = bool(c[7])
+    n = 1440 * _days_in_year(leap)
+    try:
+        base = (_doy(leap, c[0] or 1, c[1] or 1) - 1) * 1440 + (c[2] or 0) * 60
+        end = (_doy(leap, c[3] or 12, min(c[4] or 31, _mlen(leap, c[3] or 12))) - 1) * 1440 + \
+            (23 if c[5] is None else c[5]) * 60
+    except Exception:
+        base, end = 0, n - 60
+    step = 60 // (c[6] or 1)
+    return [(base + k) % n for k in (0, step, -step, 60, 1, 1440)] + \
+        [(end + k) % n for k in (0, step, 60 - step, 60, 59)] + [0, n - step, n - 60, rng.randrange(n)]
+
+
+def _random_read(rng, c, i):
+    r = rng.random()
+    if r < 0.16:
+        return ['on', i, 'included', rng.choice(_probe_moys(rng, c))]
+    if r < 0.21:
+        return ['on', i, 'possible', rng.choice([0, 30, 60, 23 * 60, 23 * 60 + 30, 1439, 12 * 60,
+                                                 ((c[2] or 0) * 60) % 1440, ((c[5] or 0) * 60 + 1) % 1440,
+                                                 rng.randrange(1440)])]
+    return ['on', i, rng.choice(HIST_READS + ['moys', 'len', 'datetimes', 'hoys_int', 'doys', 'mph'])]
+
+
+def _random_refused(rng, i):
+    r = rng.random()
+    if r < 0.5:
+        if rng.random() < 0.65:      # the eight constructor fields with values that would be valid for them
+            name = rng.choice(SET_ATTRS[:8])
+            value = {'timestep': rng.choice(VALID_TS), 'is_leap_year': rng.random() < 0.5,
+                     'st_hour': rng.randrange(24), 'end_hour': rng.randrange(24),
+                     'st_month': rng.randrange(1, 13), 'end_month': rng.randrange(1, 13)}.get(name, rng.randrange(1, 29))
+            return ['on', i, 'set_attr', name, value]
+        return ['on', i, 'set_attr', rng.choice(SET_ATTRS), rng.choice([1, 2, 4, 0, 12, 23, True, False, None])]
+    if r < 0.75:
+        return ['on', i, 'included_bad', rng.choice(['none', 'int'])]
+    return ['on', i, 'possible_bad', rng.choice(['str', 'none'])]
+
+
+def _flip_kind(rng, c):
+    """Another period related to `c` but of another kind: other leap flag, other timestep, shifted window."""
+    sm, sd, sh, em, ed, eh, ts, leap = c
+    r = rng.random()
+    if r < 0.4:
+        leap2 = not leap
+        if not leap2 and ((sm, sd) == (2, 29) or (em, ed) == (2, 29)):
+            sd = 28 if (sm, sd) == (2, 29) else sd
+            ed = 28 if (em, ed) == (2, 29) else ed
+        return (sm, sd, sh, em, ed, eh, ts, leap2)
+    if r < 0.7:
+        return (sm, sd, sh, em, ed, eh, rng.choice([t for t in VALID_TS if t != ts]), leap)
+    if r < 0.85:
+        return (sm, sd, eh, em, ed, sh, ts, leap)
+    return (em, ed, sh, sm, sd, eh, ts, leap)
+
+
+def _gen_history(ctx, rng):
+    c, shape = _small_valid(ctx, rng)
+    if rng.random() < 0.08:            # defaults through None / 0 arguments (small: one day at the year start)
+        c = (rng.choice([None, 0, 1]), rng.choice([None, 0, 1]), rng.choice([None, 0, 5]), 1,
+             rng.choice([1, 2, 3]), rng.choice([None, 0, 7, 23]), rng.choice([None, 0, 1, 4]), c[7])
+        shape = 'defaults'
+    cs = [c]                           # constructor arguments of the objects that will exist
+    ops = []
+    first = rng.random()
+    # rare first operations (what a fresh-object-one-read test never does)
+    if first < 0.2:
+        ops.append(['on', 0, 'included', rng.choice(_probe_moys(rng, c))])
+    elif first < 0.3:
+        ops.append(['on', 0, 'len'])
+    elif first < 0.4:
+        ops.append(_random_refused(rng, 0))
+    elif first < 0.5:
+        ops.append(['on', 0, 'mutate_result', rng.choice(MUTABLE_READS)])
+    elif first < 0.6:
+        ops.append(['on', 0, rng.choice(['doys', 'months', 'mph', 'hoys', 'datetimes', 'duplicate'])])
+    n = rng.randrange(5, 13)
+    for _ in range(n):
+        i = rng.randrange(len(cs))
+        r = rng.random()
+        if r < 0.52:
+            ops.append(_random_read(rng, cs[i], i))
+        elif r < 0.66:
+            ops.append(_random_refused(rng, i))
+        elif r < 0.76:
+            ops.append(['on', i, 'mutate_result', rng.choice(MUTABLE_READS)])
+        elif r < 0.83 and len(cs) < 4:
+            if rng.random() < 0.7:
+                c2 = _flip_kind(rng, cs[i])
+            else:
+                c2, _ = _small_valid(ctx, rng, 1500)
+            if _normalise(c2) is not None and _steps_estimate(c2) <= 3000:
+                ops.append(['new'] + list(c2))
+                cs.append(c2)
+                if rng.random() < 0.7:     # read the newcomer at once: a memo keyed too coarsely shows here
+                    ops.append(_random_read(rng, c2, len(cs) - 1))
+        elif r < 0.88:
+            bad, _ = _gen_malformed(rng)
+            if _normalise(bad) is None:
+                ops.append(['new'] + list(bad))
+        elif r < 0.96 and len(cs) < 4:
+            ops.append([rng.choice(['dup', 'via_string', 'via_dict', 'via_start_end']), i])
+            cs.append(_normalise(cs[i]))
+        else:
+            ops.append(['eq', i, rng.randrange(len(cs))])
+    # final sweep: every observable of every object, in random order
+    sweep = []
+    for i in range(len(cs)):
+        for name in ('moys', 'len', 'datetimes', 'hoys', 'hoys_int', 'doys', 'months', 'mph', 'repr', 'to_dict',
+                     'fields'):
+            if rng.random() < (0.9 if i == 0 else 0.5):
+                sweep.append(['on', i, name])
+        sweep.append(['on', i, 'included', rng.choice(_probe_moys(rng, cs[i]))])
+    rng.shuffle(sweep)
+    return {'args': list(c), 'ops': ops + sweep}, shape
+
+
+FIXED_HISTORIES = [
+    # membership test first, then the enumeration, on a period through the year end
+    {'args': [12, 30, 0, 1, 2, 23, 1, False],
+     'ops': [['on', 0, 'included', 0], ['on', 0, 'moys'], ['on', 0, 'hoys_int'], ['on', 0, 'datetimes'],
+             ['on', 0, 'len']]},
+    # refused assignments and calls between reads; edits of returned values
+    {'args': [12, 31, 20, 1, 1, 5, 4, True],
+     'ops': [['on', 0, 'len'], ['on', 0, 'set_attr', 'timestep', 2], ['on', 0, 'moys'],
+             ['on', 0, 'mutate_result', 'doys_int'], ['on', 0, 'doys'], ['on', 0, 'included_bad', 'none'],
+             ['on', 0, 'possible_bad', 'str'], ['on', 0, 'set_attr', 'is_leap_year', False], ['on', 0, 'moys'],
+             ['on', 0, 'len'], ['on', 0, 'fields'], ['on', 0, 'mutate_result', 'months_per_hour'],
+             ['on', 0, 'mph'], ['on', 0, 'mutate_result', 'to_dict'], ['on', 0, 'to_dict']]},
+    # leap first, then the same dates non-leap, then again leap, in one process
+    {'args': [2, 27, 0, 3, 2, 23, 1, True],
+     'ops': [['on', 0, 'doys'], ['on', 0, 'moys'], ['new', 2, 27, 0, 3, 2, 23, 1, False], ['on', 1, 'doys'],
+             ['on', 1, 'moys'], ['on', 1, 'len'], ['new', 2, 29, 0, 3, 2, 23, 1, False], ['dup', 0],
+             ['on', 2, 'moys'], ['on', 2, 'doys'], ['eq', 0, 2], ['eq', 0, 1], ['via_string', 1],
+             ['on', 3, 'fields'], ['via_dict', 0], ['on', 4, 'datetimes'], ['via_start_end', 0],
+             ['on', 5, 'len'], ['on', 5, 'moys']]},
+    # same object asked twice, other timestep in between
+    {'args': [6, 1, 22, 6, 3, 2, 3, False],
+     'ops': [['on', 0, 'mph'], ['on', 0, 'mph'], ['new', 6, 1, 22, 6, 3, 2, 12, False], ['on', 1, 'mph'],
+             ['on', 1, 'len'], ['on', 0, 'len'], ['on', 0, 'moys'], ['on', 1, 'moys'], ['on', 0, 'moys']]},
+]
+
+
+# -- oracle side ------------------------------------------------------------------------------------
+
+_EXP = {}
+
+
+def _exp(norm):
+    e = _EXP.get(norm)
+    if e is None:
+        if len(_EXP) > 400:
+            _EXP.clear()
+        sm, sd, sh, em, ed, eh, ts, leap = norm
+        lst = _expected(*norm)
+        y = 2016 if leap else 2017
+        jan1 = datetime(y, 1, 1)
+        e = {'moys': lst, 'set': set(lst), 'jan1': jan1}
+        e['doys'] = _dedup_adjacent(m // 1440 + 1 for m in lst)
+        e['months'] = _dedup_adjacent((jan1 + timedelta(minutes=m)).month for m in lst)
+        _EXP[norm] = e
+    return e
+
+
+def _window(norm, mod):
+    sh, eh = norm[2], norm[5]
+    if sh <= eh:
+        return sh * 60 <= mod <= eh * 60 or (sh, eh) == (0, 23)
+    return mod >= sh * 60 or mod <= eh * 60
+
+
+def _exp_fields(norm):
+    sm, sd, sh, em, ed, eh, ts, leap = norm
+    return (sm, sd, sh, em, ed, eh, ts, leap, (sm, sd, sh) > (em, ed, eh), sh > eh,
+            (sm, sd, sh, em, ed, eh) == (1, 1, 0, 12, 31, 23),
+            (_doy(leap, sm, sd) - 1) * 1440 + sh * 60, (_doy(leap, em, ed) - 1) * 1440 + eh * 60, 60 // ts)
+
+
+def _brief(xs, ys):
+    xs, ys = list(xs), list(ys)
+    i = next((i for i, (x, y) in enumerate(zip(xs, ys)) if x != y), min(len(xs), len(ys)))
+    return 'len %d, from index %d: %s' % (len(xs), i, xs[max(0, i - 2):i + 4])
+
+
+def _check_mph(norm, mph):
+    e = _exp(norm)
+    ts = norm[6]
+    jan1 = e['jan1']
+    want = set()
+    for m in e['moys']:
+        r = jan1 + timedelta(minutes=m)
+        want.add((r.month, r.hour, r.minute))
+    missing = sorted(want - set(mph))
+    if missing:
+        return ('months_per_hour_missing', 'contains %s' % (missing[:4],), 'len %d: %s' % (len(mph), mph[:6]))
+    all_tods = set((m // 60, m % 60) for m in range(0, 1440, 60 // ts) if _window(norm, m))
+    months = e['months']
+    spurious = [t for t in mph if t[0] not in set(months) or (t[1], t[2]) not in all_tods]
+    if spurious:
+        return ('months_per_hour_spurious', 'only window steps of the period months', spurious[:4])
+    if len(set(months)) == len(months) and len(set(mph)) != len(mph):
+        return ('months_per_hour_duplicates', 'each entry once', len(mph) - len(set(mph)))
+    return None
+
+
+def _check_obs(norm, op, res):
+    """One answer of an object whose established public state is `norm` -> None | (what, required, observed)."""
+    name = op[2]
+    e = _exp(norm)
+    exp = e['moys']
+    refused = name in ('set_attr', 'included_bad', 'possible_bad')
+    if refused or name == 'mutate_result':
+        return None                       # what matters is that the later reads are unchanged
+    if res[0] == 'err':
+        return (name + '_raises', 'an answer', 'raises ' + res[1])
+    v = res[2]
+    if name == 'moys':
+        if v != exp:
+            return ('moys', _brief(exp, v), _brief(v, exp))
+    elif name == 'hoys':
+        if v != [m / 60.0 for m in exp]:
+            return ('hoys', _brief([m / 60.0 for m in exp], v), _brief(v, [m / 60.0 for m in exp]))
+    elif name == 'hoys_int':
+        if v != [m // 60 for m in exp]:
+            return ('hoys_int', _brief([m // 60 for m in exp], v), _brief(v, [m // 60 for m in exp]))
+    elif name == 'datetimes':
+        jan1, leap = e['jan1'], norm[7]
+        want = []
+        for m in exp:
+            r = jan1 + timedelta(minutes=m)
+            want.append((r.month, r.day, r.hour, r.minute, leap, m))
+        if v != want:
+            return ('datetimes', _brief(want, v), _brief(v, want))
+    elif name == 'len':
+        if v != len(exp):
+            return ('len', len(exp), v)
+    elif name == 'doys':
+        if v != e['doys']:
+            return ('doys_int', _brief(e['doys'], v), _brief(v, e['doys']))
+    elif name == 'months':
+        if v != e['months']:
+            return ('months_int', e['months'], v)
+    elif name == 'mph':
+        return _check_mph(norm, v)
+    elif name == 'included':
+        if v != (op[3] in e['set']):
+            return ('included', '%d -> %s' % (op[3], op[3] in e['set']), '%d -> %s' % (op[3], v))
+    elif name == 'possible':
+        if v != bool(_window(norm, op[3])):
+            return ('possible_hour', '%d -> %s' % (op[3], bool(_window(norm, op[3]))), '%d -> %s' % (op[3], v))
+    elif name == 'repr':
+        want = '%d/%d to %d/%d between %d and %d @%d%s' % (norm[0], norm[1], norm[3], norm[4], norm[2], norm[5],
+                                                            norm[6], '*' if norm[7] else '')
+        if v != want:
+            return ('repr', want, v)
+    elif name == 'to_dict':
+        want = dict(zip(['st_month', 'st_day', 'st_hour', 'end_month', 'end_day', 'end_hour', 'timestep',
+                         'is_leap_year'], norm), type='AnalysisPeriod')
+        if v != want:
+            return ('to_dict', want, v)
+    elif name in ('fields', 'duplicate'):
+        if tuple(v) != _exp_fields(norm):
+            return (name, _exp_fields(norm), tuple(v))
+    return None
+
+
+def _history_sig(norm0, what, step_op):
+    sm, sd, sh, em, ed, eh, ts, leap = norm0
+    return {'what': what, 'history': True, 'reversed': (sm, sd, sh) > (em, ed, eh), 'overnight': sh > eh,
+            'sub_hourly': ts > 1, 'leap': leap, 'whole_day': (sh, eh) == (0, 23),
+            'at': step_op[0] if step_op[0] != 'on' else step_op[2]}
+
+
+def _check_history(inp):
+    """The statement of C04 after every step of a history: each answer is the one the period described
+    by the state the user established must give (a refused operation establishes nothing)."""
+    args = tuple(inp['args'])
+    norm0 = _normalise(args)
+    if norm0 is None:
+        return None
+    res0, ap = _made(_ap_class(), *args)
+    if ap is None:
+        return {'required': 'valid arguments accepted', 'observed': 'raises ' + res0[1],
+                'sig': _history_sig(norm0, 'constructor', ['new'])}
+    objs, norms = [ap], [norm0]
+    for k, op in enumerate(inp['ops']):
+        nobj = len(objs)
+        res = _exec_step(objs, op)
+        bad = None
+        kind = op[0]
+        if kind == 'on':
+            if op[1] >= len(norms):
+                continue
+            if op[2] == 'set_attr' and res[0] == 'ok':
+                # the assignment was accepted: the user has established what the object now reports
+                try:
+                    rep = _normalise(_fields(objs[op[1]])[:8])
+                except Exception:
+                    rep = None
+                if rep is None:
+                    bad = ('set_attr_state', 'a valid period', 'unreadable / invalid fields after %s' % (op[3],))
+                else:
+                    norms[op[1]] = rep
+            else:
+                bad = _check_obs(norms[op[1]], op, res)
+        elif kind == 'new':
+            want = _normalise(tuple(op[1:9]))
+            if want is None:
+                if res[0] == 'ok':
+                    bad = ('reject', 'invalid arguments rejected', 'accepted as %s' % (res[2][:8],))
+            elif res[0] == 'err':
+                bad = ('constructor', 'valid arguments accepted', 'raises ' + res[1])
+            else:
+                norms.append(want)
+                if tuple(res[2]) != _exp_fields(want):
+                    bad = ('fields', _exp_fields(want), tuple(res[2]))
+        elif kind in ('dup', 'via_string', 'via_dict', 'via_start_end'):
+            if op[1] >= len(norms):
+                continue
+            want = norms[op[1]]
+            if res[0] == 'err':
+                bad = ({'dup': 'duplicate', 'via_string': 'text_roundtrip', 'via_dict': 'dict_roundtrip',
+                        'via_start_end': 'start_end_roundtrip'}[kind], 'reads back', 'raises ' + res[1])
+            else:
+                norms.append(want)
+                if tuple(res[2]) != _exp_fields(want):
+                    bad = ({'dup': 'duplicate', 'via_string': 'text_roundtrip', 'via_dict': 'dict_roundtrip',
+                            'via_start_end': 'start_end_roundtrip'}[kind], _exp_fields(want), tuple(res[2]))
+        elif kind == 'eq':
+            if op[1] >= len(norms) or op[2] >= len(norms):
+                continue
+            want = norms[op[1]] == norms[op[2]]
+            if res[0] == 'err' or res[2] != want:
+                bad = ('equality', want, res[1:] if res[0] == 'err' else res[2])
+        if len(objs) != len(norms):           # keep both lists aligned whatever the (changed) code did
+            if len(objs) > len(norms):
+                try:
+                    norms.append(_normalise(_fields(objs[-1])[:8]) or norm0)
+                except Exception:
+                    norms.append(norm0)
+            else:
+                del norms[len(objs):]
+        if bad:
+            return {'required': bad[1], 'observed': bad[2], 'sig': _history_sig(norm0, bad[0], op),
+                    'step': k, 'step_op': op}
+        del nobj
+    return None
+
+
+def _shrink_history(inp, res):
+    """Drop reads that are not needed for the failure (keeps object-creating ops and the failing step)."""
+    ops = list(inp['ops'][:res.get('step', len(inp['ops']) - 1) + 1])
+    what = res['sig'].get('what')
+    best = dict(inp, ops=ops)
+    i = len(ops) - 2
+    budget = 60
+    while i >= 0 and budget > 0:
+        if ops[i][0] in ('on', 'eq'):
+            trial = dict(inp, ops=ops[:i] + ops[i + 1:])
+            budget -= 1
+            r = _check_history(trial)
+            if r and r['sig'].get('what') == what:
+                ops = trial['ops']
+                best = trial
+        i -= 1
+    return best
+
+
+def _fails_fresh(op, inp, what):
+    """The failure of (op, inp) as seen by a fresh interpreter (None when it does not fail there)."""
+    r = _run_order([[op, inp]])[0]
+    return r if r and (r.get('sig') or {}).get('what') == what else None
+
+
+def _shrink_history_fresh(inp, res, budget=12):
+    """Shrink a history that fails in a fresh interpreter; every accepted candidate is confirmed in a
+    fresh interpreter (this process may carry state of earlier cases)."""
+    what = res['sig'].get('what')
+    trunc = dict(inp, ops=list(inp['ops'][:res.get('step', len(inp['ops']) - 1) + 1]))
+    try:
+        here = _check_history(trunc)
+        if here and here['sig'].get('what') == what:
+            cand = _shrink_history(trunc, here)
+            if _fails_fresh('history', cand, what):
+                return cand
+    except Exception:
+        pass
+    ops = list(trunc['ops'])
+    i = len(ops) - 2
+    while i >= 0 and budget > 0:
+        if ops[i][0] in ('on', 'eq'):
+            budget -= 1
+            trial = dict(inp, ops=ops[:i] + ops[i + 1:])
+            if _fails_fresh('history', trial, what):
+                ops = trial['ops']
+        i -= 1
+    return dict(inp, ops=ops)
+
+
+# -- process order ------------------------------------------------------------------------------------
+
+_WORKER_CODE = ('import sys; sys.path.insert(0, %r); from harness.props import c04; c04._worker_main()')
+
+
+def _worker_main():
+    """Fresh interpreter: evaluate the cases of stdin in the given order, answer a JSON list."""
+    sys.path.insert(0, core.REPO)
+    data = json.load(sys.stdin)
+    real = os.dup(1)
+    devnull = os.open(os.devnull, os.O_WRONLY)
+    os.dup2(devnull, 1)
+    out = []
+    for op, inp in data['cases']:
+        try:
+            out.append(check_case(op, inp))
+        except Exception as e:
+            out.append({'required': 'oracle evaluates', 'observed': 'exception %s: %s' % (type(e).__name__, e),
+                        'sig': {'exception': type(e).__name__}})
+    sys.stdout.flush()
+    os.dup2(real, 1)
+    os.write(1, json.dumps(out, default=str).encode('utf-8'))
+
+
+def _spawn_order(cases):
+    env = dict(os.environ, LADYBUG_REPO=core.REPO)
+    p = subprocess.Popen([sys.executable, '-c', _WORKER_CODE % core.ROOT], cwd=core.ROOT, env=env,
+                         stdin=subprocess.PIPE, stdout=subprocess.PIPE, stderr=subprocess.PIPE)
+    p.stdin.write(json.dumps({'cases': cases}).encode('utf-8'))
+    p.stdin.close()
+    return p
+
+
+def _collect_order(p, n):
+    out = p.stdout.read()
+    err = p.stderr.read()
+    p.wait()
+    try:
+        res = json.loads(out.decode('utf-8'))
+        if len(res) != n:
+            raise ValueError('answered %d of %d' % (len(res), n))
+        return res
+    except Exception as e:
+        # the (changed) library made the fresh interpreter die: that is an observation, not a crash of ours
+        return [{'required': 'cases evaluate in a fresh interpreter',
+                 'observed': 'worker failed (%s): %s' % (e, err.decode('utf-8', 'replace')[-400:]),
+                 'sig': {'what': 'worker'}}] + [None] * (n - 1)
+
+
+def _run_order(cases):
+    return _collect_order(_spawn_order(cases), len(cases))
+
+
+def _check_order(inp):
+    cases = inp['order']
+    res = _run_order(cases)
+    for k, r in enumerate(res):
+        if r:
+            sig = dict(r.get('sig') or {})
+            sig['what'] = 'order:' + str(sig.get('what'))
+            return {'required': r.get('required'), 'observed': r.get('observed'), 'sig': sig, 'index': k,
+                    'case': cases[k]}
+    return None
+
+
+def _shrink_order(cases, k, what):
+    """Fewest-effort reduction of an order whose k-th case fails only after the others ran before it."""
+    prefix = cases[:k]
+    last = cases[k]
+    runs = 0
+    while len(prefix) > 1 and runs < 14:
+        half = len(prefix) // 2
+        for part in (prefix[half:], prefix[:half]):
+            runs += 1
+            r = _run_order(part + [last])[-1]
+            if r and (r.get('sig') or {}).get('what') == what:
+                prefix = part
+                break
+        else:
+            break
+    return prefix + [last]
+
+
+def _rarity(case):
+    """Sort key: rare classes first (failing calls, leap, wrapping, sub-hourly, overnight, histories)."""
+    op, inp = case
+    a = inp['args']
+    n = _normalise(tuple(a))
+    if n is None:
+        return (0,)
+    sm, sd, sh, em, ed, eh, ts, leap = n
+    return (1, not leap, not ((sm, sd, sh) > (em, ed, eh)), not ts > 1, not sh > eh, op != 'history')
+
+
+def _order_slice(ctx, rng):
+    """Cheap cases of every kind for the fresh-interpreter runs."""
+    out = []
+    for c, shape in _periods(ctx, 60, 1.2e5, rng=rng, malformed=0.15):
+        if _steps_estimate(c) > 6000:
+            continue
+        inp = {'args': list(c)}
+        if _normalise(c) is None:
+            out.append(['reject', inp])
+        else:
+            out.append([rng.choice(['period', 'period', 'forms']), inp])
+    for h in FIXED_HISTORIES:
+        out.append(['history', h])
+    for _ in range(40):
+        h, _shape = _gen_history(ctx, rng)
+        out.append(['history', h])
+    # pairs that differ only in the year kind / timestep, adjacent in the stream
+    for _ in range(12):
+        c, _shape = _small_valid(ctx, rng, 1500)
+        c2 = _flip_kind(rng, c)
+        if _normalise(c2) is not None and _steps_estimate(c2) <= 3000:
+            out.append(['period', {'args': list(c)}])
+            out.append(['period', {'args': list(c2)}])
+    return out
+
+
+def _oracle_orders(ctx):
+    rng = ctx.rng
+    cases = _order_slice(ctx, rng)
+    orders = []
+    rare_first = sorted(cases, key=_rarity)
+    orders.append(('rare-first', rare_first))
+    orders.append(('common-first', list(reversed(rare_first))))
+    sh = list(cases)
+    rng.shuffle(sh)
+    orders.append(('shuffled', sh))
+    if not ctx.quick or ctx.searching:
+        sh2 = list(cases)
+        rng.shuffle(sh2)
+        orders.append(('shuffled-2', sh2))
+    procs = [(name, order, _spawn_order(order)) for name, order in orders]
+    for name, order, p in procs:
+        res = _collect_order(p, len(order))
+        ctx.count('order:' + name, len(order))
+        for k, r in enumerate(res):
+            ctx.count('oracle:order-case')
+            ctx.case(('order', name, k))
+            if not r:
+                continue
+            if len(ctx.failures) >= 200:
+                break
+            what = (r.get('sig') or {}).get('what')
+            alone = _run_order([order[k]])[0]
+            if alone and (alone.get('sig') or {}).get('what') == what:
+                # fails in a fresh interpreter on its own: report the plain case
+                op1, inp1 = order[k]
+                if op1 == 'history':
+                    try:
+                        inp1 = _shrink_history_fresh(inp1, alone)
+                        r = _fails_fresh('history', inp1, what) or r
+                    except Exception:
+                        pass
+                ctx.fail(op1, inp1, r.get('required'), r.get('observed'), r.get('sig'))
+            else:
+                small = _shrink_order(order, k, what)
+                sig = dict(r.get('sig') or {})
+                sig['what'] = 'order:' + str(what)
+                ctx.fail('order', {'order': small, 'name': name}, r.get('required'), r.get('observed'), sig)
+            break                                  # one failure per order is enough for a replay
+
+
+def _check_reject_forms(inp):
+    """Invalid arguments are rejected by every entry point: constructor, from_dict, from_string."""
+    AnalysisPeriod = _ap_class()
+    args = tuple(inp['args'])
+    if _normalise(args) is not None:
+        return None
+    keys = ['st_month', 'st_day', 'st_hour', 'end_month', 'end_day', 'end_hour', 'timestep', 'is_leap_year']
+    entries = [('from_dict', AnalysisPeriod.from_dict, (dict((k, v) for k, v in zip(keys, args) if v is not None),))]
+    if all(isinstance(x, int) and not isinstance(x, bool) for x in args[:7]) and all(x != 0 for x in args[:7]):
+        s = '%d/%d to %d/%d between %d and %d @%d%s' % (args[0], args[1], args[3], args[4], args[2], args[5],
+                                                         args[6], '*' if args[7] else '')
+        entries.append(('from_string', AnalysisPeriod.from_string, (s,)))
+    for name, f, a in entries:
+        try:
+            with _quiet():
+                got = f(*a)
+        except (ValueError, IndexError):
+            continue
+        except Exception as e:
+            return {'required': 'ValueError', 'observed': '%s raises %r' % (name, e),
+                    'sig': {'what': 'reject-class', 'entry': name}}
+        return {'required': 'invalid arguments rejected by %s' % name, 'observed': repr(got),
+                'sig': {'what': 'reject', 'entry': name}}
+    return None
+
+
+def _check_forms_extra(inp):
+    """Further entry points / serial consumers of the stored start and end: from_start_end_datetime,
+    str / ToString, from_dict and from_string of hand-written forms, != and hash."""
+    AnalysisPeriod = _ap_class()
+    args = tuple(inp['args'])
+    norm = _normalise(args)
+    if norm is None:
+        return None
+    sm, sd, sh, em, ed, eh, ts, leap = norm
+    base = {'reversed': (sm, sd, sh) > (em, ed, eh), 'overnight': sh > eh, 'sub_hourly': ts > 1, 'leap': leap,
+            'whole_day': (sh, eh) == (0, 23)}
+
+    def bad(what, required, observed):
+        return {'required': required, 'observed': observed, 'sig': dict(base, what=what)}
+    a = _mk(args)
+    want = _exp_fields(norm)
+    text = '%d/%d to %d/%d between %d and %d @%d%s' % (sm, sd, em, ed, sh, eh, ts, '*' if leap else '')
+    if not (str(a) == repr(a) == a.ToString() == text):
+        return bad('repr', text, repr(a))
+    keys = ['st_month', 'st_day', 'st_hour', 'end_month', 'end_day', 'end_hour', 'timestep', 'is_leap_year']
+    made = [('start_end_roundtrip', lambda: AnalysisPeriod.from_start_end_datetime(a.st_time, a.end_time, ts)),
+            ('dict_form', lambda: AnalysisPeriod.from_dict(dict((k, v) for k, v in zip(keys, args) if v is not None))),
+            ('text_form', lambda: AnalysisPeriod.from_string(text)),
+            ('text_form', lambda: AnalysisPeriod.from_string(text.upper().replace(' ', '  ')))]
+    for what, f in made:
+        res, b = _made(f)
+        if b is None:
+            return bad(what, 'builds %s' % text, 'raises ' + res[1])
+        if tuple(res[2]) != want:
+            return bad(what, want, tuple(res[2]))
+        if b != a or not (b == a) or hash(b) != hash(a):
+            return bad(what + '_equal', 'equal to the period', 'not equal / other hash')
+        if list(b.moys) != list(a.moys) and len(a) < 20000:
+            return bad(what + '_moys', 'same steps', 'different steps')
+    other = _mk((sm, sd, sh, em, ed, eh, ts, not leap)) if (sm, sd) != (2, 29) and (em, ed) != (2, 29) else None
+    if other is not None and (other == a or not (other != a)):
+        return bad('equality', 'periods of different year kinds differ', 'equal')
+    return None
+
+
+def check_case(op, inp):
+    if op == 'history':
+        return _check_history(inp)
+    if op == 'order':
+        return _check_order(inp)
+    res = _check_basic(op, inp)
+    if res is None and op == 'reject':
+        res = _check_reject_forms(inp)
+    if res is None and op == 'forms':
+        res = _check_forms_extra(inp)
+    return res
+
+
 replay = check_case
+
+
 
 
 def _oracle_cases(ctx):
@@ -737,5 +1724,58 @@ def _oracle_cases(ctx):
                                 yield 'period', {'args': [a[0], a[1], sh, b[0], b[1], eh, ts, leap]}
 
 
+def _oracle_histories(ctx):
+    rng = ctx.rng
+    n = ctx.n(350, 2200) * (3 if ctx.searching and ctx.quick else 1)
+    hs = [(h, 'fixed') for h in FIXED_HISTORIES] + [_gen_history(ctx, rng) for _ in range(n)]
+    shrunk = 0
+    done = []
+    start = len(ctx.failures)
+    for h, shape in hs:
+        if len(ctx.failures) >= 200 or len(ctx.failures) - start >= 40:
+            break               # enough failing histories for a replay
+        ctx.count('oracle_history_shape:' + shape)
+        ctx.count('oracle:history')
+        ctx.count('oracle_history_ops', len(h['ops']))
+        ctx.case(('history', json.dumps(h, sort_keys=True, default=str)))
+        try:
+            res = check_case('history', h)
+            if res:
+                what = (res.get('sig') or {}).get('what')
+                trunc = dict(h, ops=h['ops'][:res.get('step', len(h['ops']) - 1) + 1])
+                if shrunk < 2:
+                    shrunk += 1
+                    fresh = _fails_fresh('history', trunc, what)
+                    if fresh:
+                        h = _shrink_history_fresh(trunc, fresh)
+                        res = _fails_fresh('history', h, what) or fresh
+                    else:
+                        # fails only after what this process did before: replay it as an order
+                        prev = [['history', p] for p in done[-40:]]
+                        r2 = _run_order(prev + [['history', trunc]])[-1]
+                        if r2 and (r2.get('sig') or {}).get('what') == what:
+                            small = _shrink_order(prev + [['history', trunc]], len(prev), what)
+                            sig = dict(r2.get('sig') or {})
+                            sig['what'] = 'order:' + str(what)
+                            ctx.fail('order', {'order': small, 'name': 'in-process'}, r2.get('required'),
+                                     r2.get('observed'), sig)
+                            done.append(h)
+                            continue
+                        h = trunc
+                        res['sig'] = dict(res['sig'], process_dependent=True)
+                else:
+                    h = trunc
+        except Exception as e:
+            res = {'required': 'oracle evaluates', 'observed': 'exception %s: %s' % (type(e).__name__, e),
+                   'sig': {'exception': type(e).__name__}}
+        if res:
+            ctx.fail('history', h, res.get('required'), res.get('observed'), res.get('sig'))
+        else:
+            done.append(h)
+
+
 def oracle(ctx):
+    # fresh interpreters first (their verdict must not depend on what this process already did)
+    _oracle_orders(ctx)
+    _oracle_histories(ctx)
     run_oracle_cases(ctx, _oracle_cases(ctx), check_case)
